@@ -533,6 +533,15 @@ func (r *Report) Add(f Finding) {
 }
 
 func (r *Report) Write() error {
+	if n := bootProbed.Load(); n > 0 {
+		r.Hit("bootstrap-map-edited-after-the-call")
+	}
+	if d := bootAlias.Load(); d != nil {
+		r.Add(Finding{Kind: "oracle", Property: "C09", Case: "Bootstrap(map), then the caller edits its map",
+			Oracle:    "a caller that edits the map it passed to Bootstrap changes the node's configuration: the node runs on the caller's map (membership without a log entry; the map is read under the node mutex and written outside it)",
+			Impl:      *d,
+			Signature: map[string]string{"oracle": "bootstrap-map-aliases-node"}})
+	}
 	path := os.Getenv("VERIF_OUT")
 	if path == "" {
 		path = "/dev/stdout"
